@@ -78,7 +78,7 @@ def confirm(sel):
             drop(wt)
 
 def run(sel, tier, prop=None):
-    resf = os.path.join(S, "RESULTS.json")
+    resf = os.environ.get("SEEDED_RESULTS", os.path.join(S, "RESULTS.json"))      # a second stream writes elsewhere (merged later)
     results = json.load(open(resf)) if os.path.exists(resf) else {}
     for i in ids(sel):
         d = os.path.join(S, i)
